@@ -732,6 +732,16 @@ def directed_personas(year, seed, n):
         for d in p.w2:      # the employer withholds the additional 0.9 % above 200,000
             d['box_6'] = round(d['box_5'] * 0.0145 + max(0.0, d['box_5'] - 200000.0) * 0.009, 2)
         out.append(('F6r', p))
+        if year == 2021:
+            # recovery rebate credit inside its phase-out band with a PARTIAL third payment already received: more than the reduced
+            # credit (worksheet line 12), less than the full one (line 8) - nothing more is due, and nothing is taken back
+            st_, lo_, hi_, full_ = [('S', 75000, 80000, 1400.0), ('HOH', 112500, 120000, 2800.0), ('MFJ', 150000, 160000, 2800.0)][k % 3]
+            agi_ = round(lo_ + (hi_ - lo_) * r.uniform(0.45, 0.75), 2)
+            p = plain_persona(year, st_, agi_, key=f'dirrrc:{seed}:{k}', deps_odc=1 if st_ == 'HOH' else 0,
+                              overrides={'1040_recovery_rebate_credit_wkst.ssn_before_due_date': 'yes', '1040_recovery_rebate_credit_wkst.spouse_ssn_before_due_date': 'yes',
+                                         '1040_recovery_rebate_credit_wkst.dependents_ssn_before_due_date': '1' if st_ == 'HOH' else '0',
+                                         '1040_recovery_rebate_credit_wkst.eip_3_amount': f'{full_ * r.uniform(0.6, 0.9):.2f}'})
+            out.append(('F1r', p))
         # a joint return where ONE employer paid more than 200,000 (and withheld the additional 0.9 % above it) while the couple's
         # Medicare wages stay below the joint threshold of 250,000: Form 8959 is required for the withholding, no additional tax is due
         w1 = round(r.uniform(205000, 235000), 2)
